@@ -268,6 +268,22 @@ fn valid_packets() -> Vec<(String, Vec<u8>)> {
             v.push((format!("v6:chunks-rr:{}:c{}", tn, compress as u8), wire::build6(wire::F6_RESEND, 3, 3, &chunks6, tok, compress).unwrap()));
         }
     }
+    // close reasons around the 127-byte limit, with and without terminator, with inner NULs
+    for n in [126usize, 127, 128, 129, 200] {
+        for (term, tname) in [(true, "nul"), (false, "nonul")] {
+            let mut ctl = vec![4u8];
+            ctl.extend(std::iter::repeat(b'r').take(n));
+            if term {
+                ctl.push(0);
+            }
+            for tok in [None, Some(t)] {
+                v.push((format!("v6:close{}:{}:{}", n, tname, tok.is_some()), wire::build6(wire::F6_CONTROL, 1, 0, &ctl, tok, false).unwrap()));
+            }
+            v.push((format!("v7:close{}:{}", n, tname), wire::build7(wire::F7_CONTROL, 1, 0, &ctl, t, false).unwrap()));
+        }
+    }
+    v.push(("v6:close-inner-nul".into(), wire::build6(wire::F6_CONTROL, 1, 0, b"\x04ab\0cd\0", None, false).unwrap()));
+    v.push(("v7:close-inner-nul".into(), wire::build7(wire::F7_CONTROL, 1, 0, b"\x04ab\0cd\0", t, false).unwrap()));
     v.push(("v6:connless".into(), b"\xff\xff\xff\xff\xff\xffinfo".to_vec()));
     for (name, ctl) in [("keepalive", vec![0u8]), ("connect", vec![1, 9, 8, 7, 6]), ("accept", vec![2]), ("close", b"\x04bye\0".to_vec()), ("token", vec![5, 9, 8, 7, 6])] {
         v.push((format!("v7:{}", name), wire::build7(wire::F7_CONTROL, 7, 0, &ctl, t, false).unwrap()));
